@@ -15,4 +15,7 @@ pub enum DriverError {
     #[error("Unable to find binary {bin_name}")]
     #[diagnostic(code("D-001"))]
     BinaryNotFound { bin_name: String },
+    #[error("Unable to read {path}: {message}")]
+    #[diagnostic(code("D-002"))]
+    Io { path: String, message: String },
 }
